@@ -16,7 +16,7 @@ VarILocs   == {l \in LiveILocs : l.root # "q"}
 Full       == {p \in SPaths : cur[p] # 0}
 
 Cand ==
-  \E act \in One(1..30), v \in One(OVars), w \in One(IVars), k \in One(Ks), root \in One(LiveORoots), loc \in One(LiveILocs),
+  \E act \in One(1..36), v \in One(OVars), w \in One(IVars), k \in One(Ks), root \in One(LiveORoots), loc \in One(LiveILocs),
      src \in One(LiveSrcI), s \in One(Sels), p \in One(SPaths), key \in One(DKeys), how \in One({"assignO", "idO"}) :
     CASE act = 1  -> NewO(v, k)
       [] act = 2  -> NewI(w, k)
@@ -39,6 +39,18 @@ Cand ==
       [] act = 25 -> IF OTarget("r") # 0 THEN SetP("r", k) ELSE RefO(v)
       [] act \in {26, 27} -> IF OTarget("r") # 0 THEN (SetX(ILoc("r", s), k) \/ Push(ILoc("r", s), k)) ELSE RefO(v)
       [] act = 28 -> IF OTarget("r") # 0 THEN WriteI("r", s, src) ELSE (IF Full = {} THEN RefO(v) ELSE \E f \in One(Full) : Borrow(f))
+      \* mutating unbound temporaries (must change nothing)
+      [] act \in {31, 32} -> \E via \in One(Vias), ts \in One(Sels \cup {Direct}), mut \in One({"setP", "setX", "push"}), c \in One(1..2) :
+                              IF c = 1 /\ Full # {} THEN \E f \in One(Full) : TempMut("copySt", "-", f, Direct, ts, mut, via, k, key)
+                              ELSE TempMut("ret", root, p, Direct, ts, mut, via, k, key)
+      [] act = 33 -> \E via \in One(Vias), mut \in One({"setX", "push"}) : TempMut("getI", root, p, Direct, Direct, mut, via, k, key)
+      [] act = 34 -> \E via \in One(Vias), c \in One(1..2), j \in One(0..(MaxSeq - 1)) :
+                       IF c = 1 THEN TempMut("getA", root, p, Direct, Direct, "pop", via, k, key)
+                       ELSE TempMut("getA", root, p, Direct, Sel("a", j, ""), "setX", via, k, key)
+      [] act = 35 -> \E via \in One(Vias), c \in One(1..2) :
+                       IF c = 1 THEN TempMut("getD", root, p, Direct, Direct, "del", via, k, key)
+                       ELSE TempMut("getD", root, p, Direct, Sel("d", 0, key), "setX", via, k, key)
+      [] act = 36 -> \E via \in One(Vias) : TempMut("derefXs", loc.root, p, loc.sel, Direct, "push", via, k, key)
       [] act \in {29, 30} -> IF ri # 0 THEN (SetX(ILoc("q", Direct), k) \/ Push(ILoc("q", Direct), k))
                              ELSE (IF VarILocs = {} THEN FALSE ELSE \E l \in One(VarILocs) : RefI(l))
 
